@@ -97,7 +97,7 @@ fn value_for(t: &mut Tape, key: &str, class: usize) -> String {
         2 => (*t.pick(&["2147483648", "-2147483648", "3000000000", "-3e9", "1e10", "2147483904", "99999999999999999999", "1e400"])).to_string(),
         3 => (*t.pick(&["NaN", "nan", "inf", "-inf", "infinity", "+inf", "-NaN"])).to_string(),
         4 => String::new(),
-        5 => format!("  {}  ", valid(t)),
+        5 => format!("{}{}{}", t.pick(&["  ", " ", "\u{3000}", "\u{a0} ", "\t"]), valid(t), t.pick(&["  ", " ", "\u{3000}", "\u{2009}", "\t"])),
         6 => format!("{} // {}", valid(t), t.pick(&["comment", "1", "9.9", ": 5"])),
         _ => format!("{}:{}", valid(t), t.pick(&["x", " 7", "", ":", "Zero: x"])),
     }
@@ -107,10 +107,13 @@ fn kv_line(t: &mut Tape, key: &str, class: usize) -> String {
     let v = value_for(t, key, class);
     let pre = if t.chance(4) { " " } else { "" };
     let mid = if t.chance(8) { " " } else { "" };
-    let sp = match t.below(4) {
-        0 => "",
-        1 | 2 => " ",
-        _ => "  ",
+    let sp = match t.below(12) {
+        0..=2 => "",
+        3..=7 => " ",
+        8 => "  ",
+        9 => "\u{3000}",
+        10 => "\u{a0}",
+        _ => "\u{b}",
     };
     format!("{pre}{key}{mid}:{sp}{v}")
 }
